@@ -85,6 +85,17 @@ def space(tier, seed):
     return items + extra
 
 
+def DEFAULT_EPS():
+    """the helper's own default tolerance, as its signature states it"""
+    import inspect
+
+    try:
+        d = inspect.signature(_orig_mfr).parameters["eps"].default
+        return float(d) if isinstance(d, (int, float)) and d > 0 else 1e-4
+    except (KeyError, TypeError, ValueError):
+        return 1e-4
+
+
 MFR_EPS = [0.5, 0.05, 0.01, 1e-3, 1e-4, 1e-6, None]  # None: the documented default of the helper
 
 
@@ -128,7 +139,7 @@ def run_mfr(item):
                     sched = np.array([x[s_] for s_ in ids], dtype=float)
                     before = sched.copy()
                     kw = {} if eps is None else {"eps": eps}
-                    eff = 1e-4 if eps is None else eps
+                    eff = DEFAULT_EPS() if eps is None else eps
                     n += 1
                     got = float(_orig_mfr(i, ub, sched, info, **kw))
                     outs.add((item["net"], okub, eps))
